@@ -11,6 +11,7 @@ import (
 	"syscall"
 	"time"
 
+	"github.com/talostrading/sonic"
 	"github.com/talostrading/sonic/sonicerrors"
 	"golang.org/x/sys/unix"
 
@@ -202,6 +203,19 @@ func runC02(c *vf.Case) {
 		}
 		outAccepted += n
 	}
+	// one operation in five is started as if 32 completions were already nested on the stack (the dispatch limit):
+	// it is handed to the poller without an inline attempt, whatever the previous operation left behind in the reactor
+	startedAtLimit := 0
+	atLimit := func(api string) func() {
+		if !r.Chance(1, 5) {
+			return func() {}
+		}
+		startedAtLimit++
+		c.Logf("    (%s is started at the dispatch limit)", api)
+		saved := w.IOC.Dispatched
+		w.IOC.Dispatched = sonic.MaxCallbackDispatch
+		return func() { w.IOC.Dispatched = saved }
+	}
 	startRead := func() {
 		size := sizes[r.Intn(len(sizes))]
 		rdAll = r.Bool()
@@ -231,11 +245,13 @@ func runC02(c *vf.Case) {
 			c.Logf("    <- %s(%d) err=%v n=%d wakeups=%d", api, len(buf), err, n, rdWake)
 			verifyRead(api, buf, all, n, err)
 		}
+		restore := atLimit(api)
 		if all {
 			o.FD.AsyncReadAll(buf, cb)
 		} else {
 			o.FD.AsyncRead(buf, cb)
 		}
+		restore()
 	}
 	startWrite := func() {
 		size := sizes[r.Intn(len(sizes))]
@@ -265,11 +281,13 @@ func runC02(c *vf.Case) {
 			c.Logf("    <- %s(%d) err=%v n=%d wakeups=%d", api, len(buf), err, n, wrWake)
 			onWrite(api, buf, all, n, err)
 		}
+		restore := atLimit(api)
 		if all {
 			o.FD.AsyncWriteAll(buf, cb)
 		} else {
 			o.FD.AsyncWrite(buf, cb)
 		}
+		restore()
 	}
 	peerWrite := func() {
 		if peerDead || peer.fd < 0 {
@@ -471,6 +489,7 @@ func runC02(c *vf.Case) {
 			c.Failf("read-invented-bytes", "%d bytes read, the peer wrote %d", inRecv, inSent)
 		}
 	}
+	c.Count("operations_started_at_the_dispatch_limit", startedAtLimit)
 	c.Count("all_ops_needing_ge2_wakeups", allGE2)
 	c.Count("wouldblock_mid_writeall", wouldblockMidAll)
 	c.Count("partial_reads", partialReads)
